@@ -57,7 +57,7 @@ namespace MT
 
 /-- a dict value that `get_type` turns into a TypedDict at limit `k` -/
 def tdAble (k : Nat) (kvs : List (Val × Val)) : Bool :=
-  !kvs.isEmpty && kvs.all (fun kv => kv.1.strKey?.isSome) && decide (kvs.length ≤ k)
+  !kvs.isEmpty && kvs.all (fun kv => kv.1.tdKeyOk) && decide (kvs.length ≤ k)
 
 theorem getType_tdAble (k : Nat) (kvs : List (Val × Val)) (h : tdAble k kvs = true) :
     getType k (.dict kvs) = .td (getFields k kvs) [] := by
@@ -91,6 +91,6 @@ theorem reqKeySet_getType (k : Nat) (kvs : List (Val × Val)) (h : tdAble k kvs 
     (getType k (.dict kvs)).reqKeySet = strKeys kvs ∧ (getType k (.dict kvs)).optKeySet = [] := by
   rw [getType_tdAble k kvs h]
   simp only [tdAble, Bool.and_eq_true] at h
-  exact ⟨getFields_keys k kvs h.1.2, rfl⟩
+  exact ⟨getFields_keys k kvs (all_tdKeyOk_strKey kvs h.1.2), rfl⟩
 
 end MT
